@@ -17,7 +17,7 @@ PROPERTY = "C11"
 LEVEL = "exploration"
 NEED_EXT = True
 REQUIRED = ["shadow.exponents", "numeric.poly", "numeric.poly-slow", "names", "n_output_features",
-            "history.steps"]
+            "history.steps", "history.kind_switched_without_refit"]
 EXHAUSTIVE = {"quick": True, "thorough": True}
 RULE = ("all (n_features, degree, interaction_only, include_bias) in the tier's box (quick 1-6 x 1-5, thorough "
         "1-8 x 1-6), both kinds, 8 input classes each, plus histories of set_params/refit/transform on one "
@@ -244,6 +244,30 @@ def run_history(case, ctx):
         if len(names) != ref.powers_.shape[0] or E is None or not numpy.array_equal(E, ref.powers_):
             ctx.violation("C11/history/names", "feature names after step %d do not name the monomials" % step,
                           cfg=cfg, names=names[:6])
+        # the other algorithm is selected WITHOUT a refit (kind only chooses how the fitted table is computed): the same
+        # monomials, the same names; then back
+        other = "poly" if kind == "poly-slow" else "poly-slow"
+        try:
+            m.set_params(kind=other)
+            go, no_, nn = m.transform(X2), m.n_output_features_, list(m.get_feature_names_out())
+            m.set_params(kind=kind)
+            gb = m.transform(X2)
+        except Exception as e:
+            ctx.violation("C11/history/kind-switched-without-refit/raised/%s" % type(e).__name__,
+                          "set_params(kind=%r) after a fit with kind=%r, then transform: %s" % (other, kind, str(e)[:120]),
+                          cfg=cfg)
+            return
+        ctx.hit("history.kind_switched_without_refit")
+        f32 = X2.dtype == numpy.float32
+        for g_ in (go, gb):
+            if g_.shape != exps[1].shape or not numpy.allclose(g_, exps[1], rtol=1e-4 if f32 else 1e-12, atol=1e-15):
+                ctx.violation("C11/history/kind-switched-without-refit/values-differ", "after set_params(kind=%r) on an "
+                              "instance fitted with kind=%r (step %d) transform differs from PolynomialFeatures "
+                              "(shape %r vs %r)" % (other, kind, step, g_.shape, exps[1].shape), cfg=cfg)
+                break
+        if no_ != ref.powers_.shape[0] or nn != names:
+            ctx.violation("C11/history/kind-switched-without-refit/names", "n_output_features_ / names change with kind",
+                          cfg=cfg)
         # results of single-row calls are kept by the caller while further rows are asked
         if len(X2) >= 2:
             ra = m.transform(X2[:1])
